@@ -556,6 +556,9 @@ def run(ctx, sm, facts):
     from .c14 import helper_clause
     ctx.rule('C12.g', 'FixedPoint.add / sub / mult: extracted encoding function == exact arithmetic over a grid of formats and all operand pairs (shared with C14.d)')
     helper_clause(ctx, facts, 'C12.g')
+    ctx.rule('C12.k', 'no memoised conversion / shared mutable state in helper.py (equal-comparing arguments such as 0.0 and -0.0 must not share a result)')
+    from ..leafrules import shared_instance_state
+    shared_instance_state(ctx, facts, 'C12.k', [HELPER])
     ctx.rule('C12.j', 'interval analysis of the field-to-float decoders: no float intermediate leaves the double range while the result is representable')
     float_ranges(ctx, facts)
     ctx.rule('C12.i', 'operand purity: value-returning operations of FPNum / FixedPoint never mutate self, a parameter or an alias of them')
